@@ -22,6 +22,7 @@ class RunResult:
         self.class_store = eng.class_store
         self.decisions = list(eng.oracle.taken)
         self.loop_obligations = list(eng.loop_obligations)
+        self.mutated_real = list(getattr(eng, "mutated_real", []))
         self.ended = bool(isinstance(env, dict) and env.get("_ended"))
         self.eng = eng
 
@@ -55,6 +56,7 @@ class Program:
         e.trace_calls = []
         e.loop_contracts = {}
         e.loop_obligations = []
+        e.mutated_real = []
         e.reset()
         return e
 
